@@ -64,6 +64,11 @@ CHECKS = {
    text="Within the listed lengths/shapes no kernel, tail loop, unchecked look-up or paired borrow reads or writes outside its operands or hands out overlapping mutable access: CBMC's object-bounds/dead-object/unaligned-access checks pass for symbolic contents, indices and permutations, in both debug-assertion settings for the util/octet units.",
    note="Kani does not check aliasing models; whole workloads and lengths above the bounds are outside; a failing pointer check cannot be confirmed natively and is reported on Kani's memory model.",
    design="§4 C12"),
+ "C05": dict(level="model_checking", engine="E2 MIR->SMT + E1 kani/cbmc",
+   technique="MIR of partition, calculate_block_offsets, Decoder::new and SourceBlockDecoder::new symbolically executed into integer SMT (F, T over their whole ranges, Z up to the loop bound); Kani harnesses for create_symbols and unpack_sub_blocks on concrete shapes with symbolic data against an independent RFC 4.4.1.2 index formula; concrete object-level layout/padding/numbering comparison",
+   text="partition(I,J) equals (ceil, floor, JL, JS) of the RFC for all u32 I and J>=1 and never panics; calculate_block_offsets yields exactly Z contiguous ranges, ZL of KL*T then ZS of KS*T bytes, only the last passing F and by less than T, for every valid (F,T) and Z<=5 (thorough 8); Decoder::new creates block decoders 0..Z-1 of those sizes and SourceBlockDecoder::new holds K=len/T symbols; create_symbols places sub-symbol (j,m) per the RFC formula and unpack_sub_blocks inverts it for 6 (13) shapes with symbolic data; whole objects (8 configurations) match an independent layout computation incl. zero padding, SBN/ESI numbering and T-byte payloads.",
+   note="Encoder::new/Decoder::decode end to end are only observed concretely; Vec::new/push/from_elem are hand models in the MIR executor; shapes for the Kani units are small (Vec<Vec<u8>> growth).",
+   design="§4 C05"),
 }
 
 NOT_APPLICABLE = {
